@@ -42,7 +42,7 @@ def _iter_call(lp: Loop) -> tuple[str, ast.Call, str | None]:
     """(method name, call, wrapper) of a loop's iteration source; wrapper is sorted/set/... if wrapped."""
     e = lp.iter
     wrapper = None
-    while isinstance(e, ast.Call) and dotted(e.func) in ("sorted", "set", "frozenset", "reversed", "list", "tuple") and e.args:
+    while isinstance(e, ast.Call) and dotted(e.func) in ("sorted", "set", "frozenset", "reversed", "list", "tuple", "enumerate") and e.args:
         if dotted(e.func) in ("sorted", "set", "frozenset"):
             wrapper = dotted(e.func)
         e = e.args[0]
